@@ -82,6 +82,8 @@ def run_property(prop, tier, seed, workers=None, budget=None):
             else:
                 from . import program18 as P18
                 P18.phase_sweep(run, pool, B["sweep_len"])
+                if not run.violations and not run.harness:
+                    P18.phase_diff(run, pool, B["diff"])
                 phase_crash(run, pool, P18.crash_programs_c18(seed, tier), B["crash_jobs"][prop])
         seen_cls = set()
         for job, res in run.violations[:6]:
